@@ -109,7 +109,7 @@ func c12ExactlyOne(c *Ctx, add *ssa.Function) {
 		c.Fail(key2, r2, "the counted index is not the scan's loop variable", c.at(cs))
 		return
 	}
-	isLat := func(v ssa.Value) bool { return describeVal(v) == "r.Latency" }
+	isLat := func(v ssa.Value) bool { return describeVal(v) == "arg0.Latency" }
 	isBucketAt := func(v ssa.Value, want ssa.Value, plusOne bool) bool {
 		ld, ok := isLoad(v)
 		if !ok {
